@@ -1721,20 +1721,27 @@ fn volume_ops(case: usize) -> Vec<String> {
         _ => {
             // one tick: unreliable small messages that need two packets + reliable traffic; the reliable packet is lost,
             // everything else arrives and is acknowledged; then a perfect network
-            let c = if case == 4 { chans(300_000) } else { vec![chans(300_000)[0].clone(), chans(300_000)[2].clone(), chans(300_000)[1].clone()] };
+            let c = if case == 4 || case == 6 { chans(300_000) } else { vec![chans(300_000)[0].clone(), chans(300_000)[2].clone(), chans(300_000)[1].clone()] };
             ops.push(cfg_line(60_000, &c, &c));
             ops.extend(["cli 0", "add 100", "setc 0"].iter().map(|x| x.to_string()));
-            let rel = if case == 4 { 2 } else { 1 };
-            for k in 0..3 {
-                ops.push(format!("send c0 0 {}", hex(&pat(500, 10 + k))));
+            let rel = if case == 4 || case == 6 { 2 } else { 1 };
+            if case >= 6 {
+                // one unreliable message that is too big to share a batch and too small to be sliced
+                ops.push(format!("send c0 0 {}", hex(&pat(if case == 6 { 1199 } else { 1200 }, 10))));
+            } else {
+                for k in 0..3 {
+                    ops.push(format!("send c0 0 {}", hex(&pat(500, 10 + k))));
+                }
             }
             ops.push(format!("send c0 {} {}", rel, hex(&pat(100, 50))));
             ops.push(format!("send c0 {} {}", rel, hex(&pat(100, 51))));
             ops.push("upd c0 16000".into());
             ops.push("upd srv 16000".into());
-            ops.push("flush c0".into()); // U, U, R
+            ops.push("flush c0".into()); // U, U, R   (cases 6, 7: U, R)
             ops.push("dlv s100 c0 0".into());
-            ops.push("dlv s100 c0 1".into()); // packet 2 (reliable) is lost
+            if case < 6 {
+                ops.push("dlv s100 c0 1".into()); // the last packet of the flush (reliable) is lost
+            }
             ops.push("recv s100 0".into());
             ops.push("recv s100 0".into());
             ops.push("recv s100 0".into());
@@ -1742,7 +1749,7 @@ fn volume_ops(case: usize) -> Vec<String> {
             ops.push("flush s100".into());
             ops.push("dlv c0 s100 0".into());
             ops.push("dump c0".into());
-            let mut next = 3usize;
+            let mut next = if case < 6 { 3usize } else { 2 };
             let mut next_s = 1usize;
             for _ in 0..6 {
                 ops.push("upd c0 301000".into());
@@ -2471,8 +2478,8 @@ pub fn profiles() -> Vec<Profile> {
     },
     Profile {
         name: "rn-volume-mixed",
-        props: &["C01", "C02", "C08", "C13"],
-        cases: |_| 2,
+        props: &["C01", "C02", "C08", "C13", "C11"],
+        cases: |_| 4,
         new_world,
         script: script_none,
         nontrivial: |_| true,
@@ -3795,7 +3802,7 @@ pub fn oracles() -> Vec<Oracle> {
         Oracle { prop: "C15", name: "resend-timing", engines: &["rn-pair", "rn-timing"], check: oracle_c15 },
         Oracle { prop: "C15", name: "prompt-and-final", engines: &["rn-timing"], check: oracle_c15_prompt },
         Oracle { prop: "C08", name: "release-after-delivery", engines: &["rn-pair", "rn-timing", "rn-long", "rn-acks", "rn-volume"], check: oracle_c08 },
-        Oracle { prop: "C11", name: "isolation-ordered", engines: &["rn-multi"], check: oracle_c01 },
-        Oracle { prop: "C11", name: "isolation-unordered", engines: &["rn-multi"], check: oracle_c02 },
+        Oracle { prop: "C11", name: "isolation-ordered", engines: &["rn-multi", "rn-volume-mixed"], check: oracle_c01 },
+        Oracle { prop: "C11", name: "isolation-unordered", engines: &["rn-multi", "rn-volume-mixed"], check: oracle_c02 },
     ]
 }
